@@ -121,7 +121,8 @@ htk_write_header (SF_PRIVATE *psf, int calc_length)
 	else
 		sample_count = 0 ;
 
-	sample_period = 10000000 / psf->sf.samplerate ;
+	/* A sample rate below 1 is refused later in sf_open ; do not divide by it here. */
+	sample_period = (psf->sf.samplerate > 0) ? 10000000 / psf->sf.samplerate : 0 ;
 
 	psf_binheader_writef (psf, "E444", BHW4 (sample_count), BHW4 (sample_period), BHW4 (0x20000)) ;
 
